@@ -40,6 +40,17 @@ func init() {
 			}
 			return Pointer{loc: l}
 		}
+		// The peer batcher / exchange server read the wall clock only for stage metrics handed to an
+		// observer (nil in the harness): the clock is frozen at the zero time.Time.
+		p.intrinsics["time.Now"] = func(e *Exec, fr *frame, args []Value) Value {
+			sp := e.prog.pkgs["time"]
+			if sp == nil {
+				e.unsupported("time must be listed in check.json std")
+			}
+			var t types.Type = sp.Func("Now").Signature.Results().At(0).Type()
+			return e.zero(t)
+		}
+		p.intrinsics["time.Since"] = func(e *Exec, fr *frame, args []Value) Value { return e.ts.BV(64, 0) }
 		noop := func(e *Exec, fr *frame, args []Value) Value { return nil }
 		p.intrinsics["(*sync.Cond).Broadcast"] = noop
 		p.intrinsics["(*sync.Cond).Signal"] = noop
